@@ -672,3 +672,91 @@ func firstWord(s string) string {
 	}
 	return s
 }
+
+// ---------------------------------------------------------------------------
+// Distinct steps of ONE parsed pipeline are distinct objects too. When several steps alias the same
+// anchored block, each must have got a copy of its own: a job's goroutine that applies its matrix
+// permutation to its step writes into that step only.
+
+var recSteps = ev.New("TestPropConcurrentStepsOfOnePipeline", "documents of 2-6 command steps whose unknown fields (agents, extra, nested lists and mappings) alias one or two anchored blocks holding matrix tokens, each step with its own anonymous matrix; one goroutine per step applies that step's permutation to the shared parse result concurrently (race detector on); every step must equal the same step of a fresh parse interpolated alone, and no data race may be reported; non-trivial = >= 2 steps alias the same block; distinct by document text")
+
+func TestPropConcurrentStepsOfOnePipeline(t *testing.T) {
+	ev.Check(t, 40, 800, func(t *rapid.T) {
+		n := rapid.IntRange(2, 6).Draw(t, "nsteps")
+		var b strings.Builder
+		b.WriteString("x-blocks:\n")
+		b.WriteString("  a: &a\n    queue: \"q-{{matrix}}\"\n    nested:\n      - \"{{matrix}}\"\n      - {zeta: \"z {{ matrix }}\", alpha: 1}\n")
+		b.WriteString("  b: &b\n    - \"first {{matrix}}\"\n    - [\"{{matrix}}\", plain]\n")
+		b.WriteString("steps:\n")
+		aliasing := map[string]int{}
+		for i := 0; i < n; i++ {
+			fmt.Fprintf(&b, "  - command: \"run {{matrix}}\"\n    matrix: [\"v%da\", \"v%db\"]\n", i, i)
+			switch rapid.IntRange(0, 3).Draw(t, "uses") {
+			case 0:
+				b.WriteString("    agents: *a\n")
+				aliasing["a"]++
+			case 1:
+				b.WriteString("    extra: *b\n")
+				aliasing["b"]++
+			case 2:
+				b.WriteString("    agents: *a\n    extra: *b\n")
+				aliasing["a"]++
+				aliasing["b"]++
+			default:
+				b.WriteString("    agents: {own: \"{{matrix}}\", blocks: [*a, *b]}\n")
+				aliasing["a"]++
+				aliasing["b"]++
+			}
+		}
+		text := b.String()
+		parse := func() []*pipeline.CommandStep {
+			p, err := pipeline.Parse(strings.NewReader(text))
+			if err != nil {
+				t.Fatalf("Parse: %v\n%s", err, text)
+			}
+			var out []*pipeline.CommandStep
+			walk(p.Steps, func(cs *pipeline.CommandStep) { out = append(out, cs) })
+			if len(out) != n {
+				t.Fatalf("parsed %d command steps, wrote %d\n%s", len(out), n, text)
+			}
+			return out
+		}
+		perm := func(i int) pipeline.MatrixPermutation {
+			return pipeline.MatrixPermutation{"": fmt.Sprintf("v%d%s", i, []string{"a", "b"}[i%2])}
+		}
+		// reference: each step of a parse of its own, interpolated alone
+		want := make([]string, n)
+		for i := 0; i < n; i++ {
+			steps := parse()
+			if err := steps[i].InterpolateMatrixPermutation(perm(i)); err != nil {
+				t.Fatalf("step %d: %v\n%s", i, err, text)
+			}
+			want[i] = gt.Show(canon.Step(steps[i], canon.Raw))
+		}
+		shared := parse()
+		var wg sync.WaitGroup
+		start := make(chan struct{})
+		errs := make([]error, n)
+		for i := 0; i < n; i++ {
+			wg.Add(1)
+			go func(i int) {
+				defer wg.Done()
+				<-start
+				errs[i] = shared[i].InterpolateMatrixPermutation(perm(i))
+			}(i)
+		}
+		close(start)
+		wg.Wait()
+		for i := 0; i < n; i++ {
+			if errs[i] != nil {
+				t.Fatalf("step %d, interpolated concurrently with its siblings: %v\n%s", i, errs[i], text)
+			}
+			if got := gt.Show(canon.Step(shared[i], canon.Raw)); got != want[i] {
+				t.Fatalf("step %d of a pipeline whose steps were interpolated concurrently, each from its own permutation, differs from the same step interpolated alone:\ngot  %s\nwant %s\n%s", i, got, want[i], text)
+			}
+		}
+		nt := aliasing["a"] >= 2 || aliasing["b"] >= 2
+		recSteps.Case(ev.HashStr(text), nt, fmt.Sprintf("steps=%d", n))
+		recSteps.MaybeSample(nt, func() any { return text })
+	})
+}
